@@ -460,6 +460,14 @@ func (v Versioned) EventTypeName() string { return fmt.Sprintf("order.placed.v%d
 
 // sequenceCases: several publishes on ONE bus (the value cases above use a fresh bus each).
 func sequenceCases() (out []string) {
+	res := vrt.Run(vrt.Config{}, func() { out = sequenceCasesBody(); vrt.Join() })
+	if res.Status != vrt.StatusOK {
+		out = append(out, "publishing blocked for ever or crashed: "+res.Status.String())
+	}
+	return out
+}
+
+func sequenceCasesBody() (out []string) {
 	ms := eventbus.NewMemoryStore()
 	bus := eventbus.New(eventbus.WithStore(ms))
 	var want []string
@@ -484,6 +492,14 @@ func sequenceCases() (out []string) {
 // durableCases: the durable-streams store behind a transport that drops the connection
 // after the server applied an append: N publishes must still give N records, none twice.
 func durableCases() (out []string) {
+	res := vrt.Run(vrt.Config{}, func() { out = durableCasesBody(); vrt.Join() })
+	if res.Status != vrt.StatusOK {
+		out = append(out, "publishing blocked for ever or crashed: "+res.Status.String())
+	}
+	return out
+}
+
+func durableCasesBody() (out []string) {
 	for at := 1; at <= 3; at++ {
 		med, err := stores.NewMedium("durable")
 		if err != nil {
